@@ -115,19 +115,23 @@ func driveC19(a *args, s *vt.Sink) error {
 		// quick tier: a seeded sample of the (slow) keepalive cases: one with the real peer
 		// (the session must survive), three with foreign sources
 		var peers, others []int
+		pick := map[int]bool{}
 		for i, j := range keep {
+			if j.c.Side == "client" { // four cases, all kept
+				pick[i] = true
+				continue
+			}
 			if j.c.Src == "peer" {
 				peers = append(peers, i)
 			} else {
 				others = append(others, i)
 			}
 		}
-		pick := map[int]bool{}
 		if len(peers) > 0 {
 			pick[peers[rng.Intn(len(peers))]] = true
 		}
-		for _, p := range rng.Perm(len(others)) {
-			if len(pick) >= 4 {
+		for k, p := range rng.Perm(len(others)) {
+			if k >= 3 {
 				break
 			}
 			pick[others[p]] = true
@@ -150,6 +154,8 @@ func driveC19(a *args, s *vt.Sink) error {
 		seed := a.seed*1000003 + int64(j.idx)
 		var err error
 		switch {
+		case j.c.Kind == "keepalive" && j.c.Side == "client":
+			err = c19keepaliveClient(&j.c, j.js, s, seed)
 		case j.c.Kind == "keepalive":
 			err = c19keepalive(&j.c, j.js, s, seed)
 		case j.c.Kind == "steal":
@@ -959,6 +965,142 @@ func c19keepalive(c *c19case, js string, s *vt.Sink, seed int64) error {
 		fmt.Printf("DRIVER-NOTE c19 keepalive %s/%s expired after %d ms\n", c.State, c.Src, afterMs)
 	}
 	tr.Emit("keepalive", "src", actual, "expired", expired, "state", c.State, "asked", c.Src)
+	tr.Emit("end")
+	return nil
+}
+
+// c19keepaliveClient: a real client plays over UDP; after a first packet of the real peer only
+// datagrams from the given source reach its RTP / RTCP ports: does its UDP timeout fire?
+func c19keepaliveClient(c *c19case, js string, s *vt.Sink, seed int64) error {
+	tr, fail := c19begin(s, "c19/keepalive", js)
+	defer tr.End()
+	defer func() {
+		if p := recover(); p != nil {
+			tr.Emit("panic", "why", fmt.Sprint(p))
+		}
+	}()
+	rng := rand.New(rand.NewSource(seed))
+	bd, err := bed.Start(bed.ServerCfg{UDP: true})
+	if err != nil {
+		return err
+	}
+	defer bd.Close()
+
+	var pmu sync.Mutex
+	var cports [][2]int
+	seen := &c19seen{}
+	rd, err := bd.NewReader(bed.ReaderCfg{Proto: "udp", Timeout: 2 * time.Second, Extra: func(cl *gortsplib.Client) {
+		cl.InitialUDPReadTimeout = time.Second
+		gortsplib.VerifSetClientKnobs(cl, nil, 0, 0, 200*time.Millisecond)
+		cl.OnRequest = func(req *base.Request) {
+			if req.Method != base.Setup {
+				return
+			}
+			var th headers.Transport
+			if th.Unmarshal(req.Header["Transport"]) == nil && th.ClientPorts != nil {
+				pmu.Lock()
+				cports = append(cports, *th.ClientPorts)
+				pmu.Unlock()
+			}
+		}
+	}}, "stream", seen.onRTP)
+	if err != nil {
+		fail("reader", err)
+		return nil
+	}
+	defer rd.Close()
+	if _, err := rd.C.Play(nil); err != nil {
+		fail("play", err)
+		return nil
+	}
+	var dead atomic.Bool
+	go func() {
+		rd.C.Wait() //nolint:errcheck
+		dead.Store(true)
+	}()
+	pmu.Lock()
+	ports := append([][2]int(nil), cports...)
+	pmu.Unlock()
+	if len(ports) == 0 {
+		fail("reader", fmt.Errorf("no client_port seen in the SETUP requests"))
+		return nil
+	}
+	ssrc := rd.AnnouncedSSRC(0)
+	if ssrc == 0 {
+		ssrc = 0x1234ABCD
+	}
+	medi := bd.Desc.Medias[0]
+	seq := uint16(rng.Intn(60000))
+	id := 1
+	if err := bd.Stream.WritePacketRTP(medi, c19rtpPkt(c19pt0, seq, ssrc, id)); err != nil {
+		fail("first", err)
+		return nil
+	}
+	if !c19poll(time.Second, func() bool { return seen.has("rtp", 1) }) {
+		fail("first", fmt.Errorf("the packet of the real peer was not delivered within 1s"))
+		return nil
+	}
+
+	// forged datagrams go to the RTP and RTCP ports of every media the client set up
+	type dst struct {
+		sk   *net.UDPConn
+		port int
+		rtcp bool
+	}
+	var dsts []dst
+	actual := c.Src
+	if c.Src != "peer" {
+		for k := 0; k < 2; k++ {
+			socks, a, err := c19sources(c.Src, bd.UDPPort+k)
+			if err != nil {
+				fail("sources", err)
+				return nil
+			}
+			defer c19closeAll(socks)
+			if a != c.Src {
+				actual = "both"
+			}
+			for _, cp := range ports {
+				for _, sk := range socks {
+					dsts = append(dsts, dst{sk, cp[k], k == 1})
+				}
+			}
+		}
+	}
+	start := time.Now()
+	expired, afterMs := false, 0
+	for time.Since(start) < 5500*time.Millisecond {
+		if dead.Load() {
+			expired, afterMs = true, int(time.Since(start)/time.Millisecond)
+			break
+		}
+		if c.Src == "peer" {
+			id++
+			seq++
+			bd.Stream.WritePacketRTP(medi, c19rtpPkt(c19pt0, seq, ssrc, id)) //nolint:errcheck
+		}
+		for _, d := range dsts {
+			id++
+			seq++
+			var buf []byte
+			if d.rtcp {
+				buf = c19marshal(tr, c19srPkt(ssrc, id))
+			} else {
+				buf = c19marshal(tr, c19rtpPkt(c19pt0, seq, ssrc, id))
+			}
+			if buf != nil {
+				c19send(d.sk, buf, c19ipPeer, d.port) //nolint:errcheck
+			}
+		}
+		next := time.Now().Add(200 * time.Millisecond)
+		for time.Now().Before(next) && !dead.Load() {
+			time.Sleep(5 * time.Millisecond)
+		}
+	}
+	if expired {
+		fmt.Printf("DRIVER-NOTE c19 keepalive client/%s expired after %d ms\n", c.Src, afterMs)
+	}
+	tr.Emit("keepalive", "src", actual, "expired", expired, "state", c.State, "asked", c.Src, "side", "client")
 	tr.Emit("end")
 	return nil
 }
